@@ -182,6 +182,31 @@ def build(tier, repo):
     from .. import cwrap_rules as cw
     for fname in ("dense.c", "base.c", "sparse.c"):
         cw.buildvalue_rule(r2, cs[fname], cs[fname].order)
+    # the requested typecode reaches every matrix the constructor helpers build
+    for fname in ("dense.c", "sparse.c"):
+        cc = cs[fname]
+        for fn in cc.order:
+            nd = cc.funcs[fn]
+            if "id" not in [x.get("n") for x in nd.get("c", []) if x.get("k") == "ParmVarDecl"] or fn in ("Matrix_New", "SpMatrix_New"):
+                continue
+            t_ = cx.strip_pp(cc.text(nd["b"], nd["e"]))
+            for m_ in re.finditer(r"\b(Matrix_New|SpMatrix_New)\s*\(", t_):
+                i_, d_ = m_.end(), 1
+                while i_ < len(t_) and d_:
+                    if t_[i_] == "(":
+                        d_ += 1
+                    elif t_[i_] == ")":
+                        d_ -= 1
+                    i_ += 1
+                args_ = [a.strip() for a in cf.split_top(t_[m_.end():i_ - 1])]
+                key = "%s:%s:%s(.., %s) carries the requested typecode" % (fname, fn, m_.group(1), args_[-1] if args_ else "?")
+                where_ = "src/C/%s:%s:%d" % (fname, fn, cc.line_of(nd["b"]) + t_[:m_.start()].count("\n"))
+                if args_ and re.search(r"\bid\b", args_[-1]):
+                    r2.ok(key, where_)
+                else:
+                    r2.violation(key, where_, "a matrix is built with the fixed typecode `%s` although the caller asked for `id`: "
+                                 "the (list, size, tc) state of an empty 'd'/'z' matrix is rebuilt as another type" % (args_[-1] if args_ else "?"),
+                                 "an expression of id", args_[-1] if args_ else "?")
     r2.require(7)
 
     r3 = chk.rule("C20-R3", "tofile/fromfile use the same byte count on the matrix buffer; fromfile checks the bytes read",
@@ -209,7 +234,9 @@ def build(tier, repo):
 
     r4 = chk.rule("C20-R4", "buffer import: every element read goes through both strides as byte offsets with the source format's C type; one format table for import and export",
                   "construction from any buffer exporter reproduces the values for every stride layout")
-    bt = _fn_text(c, "Matrix_NewFromPyBuffer")
+    from .. import cwrap_rules as cwr
+    # locals that always hold the same expression (a hoisted element address) are substituted back first
+    bt = cwr.normalise_kernel_text(_fn_text(c, "Matrix_NewFromPyBuffer"), strip_casts=False, rename_loops=False)
     where = "src/C/dense.c:Matrix_NewFromPyBuffer"
     uses = [m_.start() for m_ in re.finditer(r"view->buf\b", bt)]
     good = list(re.finditer(r"\*\s*\(\s*([\w ]+?)\s*\*\s*\)\s*\(\s*\(\s*unsigned\s+char\s*\*\s*\)\s*view->buf\s*\+\s*i\s*\*\s*stride0\s*\+\s*j\s*\*\s*stride1\s*\)", bt))
